@@ -348,7 +348,8 @@ def gen_grid_case(rng, cap):
         "kind": "grid", "n": n, "priors": [specs[k] for k in order], "comps": comps, "grid": passed,
         "cores": cores, "perm_seed": rng.randrange(1 << 30) if cores > 1 else None,
         # the same GridSearch object was used before on a problem of another dimension (0 = fresh object)
-        "earlier_use": rng.choice([0, 0, 1, 2, 3]),
+        # (-1: a problem of the same dimension with another number of steps, the number changed afterwards)
+        "earlier_use": rng.choice([0, 0, 1, 2, 3, -1, -1]),
     }
 
 
@@ -411,7 +412,19 @@ def run_grid(ctx, cfg, case, label="gen"):
     FakePool.perm_seed = case.get("perm_seed")
     FakePool.last_order = None
     grid_search = af.SearchGridSearch(search=search, number_of_steps=n, number_of_cores=case["cores"])
-    if case.get("earlier_use"):
+    if case.get("earlier_use") == -1:
+        n0 = n + 1 if (n + 1) ** d <= 2000 else max(1, n - 1)
+        if n0 != n:
+            ctx.hit("grid:object-used-before-with-other-steps")
+            try:
+                grid_search = af.SearchGridSearch(search=search, number_of_steps=n0, number_of_cores=case["cores"])
+                warm_m = af.Collection(**{f"w{i}": af.UniformPrior(0.0, 1.0 + i) for i in range(d)})
+                list(grid_search.model_mappers(warm_m, [getattr(warm_m, f"w{i}") for i in range(d)]))
+                grid_search.number_of_steps = n
+            except Exception as e:  # noqa
+                ctx.hit("grid:earlier-use-raised:" + type(e).__name__)
+                grid_search = af.SearchGridSearch(search=search, number_of_steps=n, number_of_cores=case["cores"])
+    elif case.get("earlier_use"):
         # what a grid search answers does not depend on what the same object was asked before
         ctx.hit("grid:object-used-before")
         try:
